@@ -54,7 +54,9 @@ class ModelCheck(PipelineCheck):
         to = (ts[0].get('active'), ts[0].get('inactive')) if ts else (None, None)
         events, style = gen_events(rng, parties, maxev, timeouts=to, p_close=0.25 if ts else 0.0,
                                    values=rng.choice(self.values))
-        return {'program': program, 'events': events, 'end': rng.choice(self.end_kinds), 'style': style}
+        end = rng.choice(self.end_kinds)
+        return {'program': program, 'events': events, 'end': end, 'style': style,
+                'driver': 'cold' if (end != 'dispose' and rng.random() < 0.1) else 'hot'}
 
     def relevant(self, f):
         return f.op in self.focus and f.kind in self.kinds
@@ -62,8 +64,8 @@ class ModelCheck(PipelineCheck):
     def execute(self, case):
         out = Outcome()
         program = case['program']
-        ctx, final, escaped = run_mux(program, case['events'], case['end'], monitor=False)
-        out.shape = shape_of(case)
+        ctx, final, escaped = run_mux(program, case['events'], case['end'], monitor=False, driver=case.get('driver', 'hot'))
+        out.shape = (shape_of(case), case.get('driver'))
         out.steps = len(case['events']) + 1
         out.ticks = case['events'][-1]['t'] if case['events'] else 0
         p = out.probes
